@@ -147,4 +147,95 @@ theorem drive_sden {m : SM σ α} {cost : σ → Nat} {s : σ} {L : List (α × 
     obtain ⟨g, rfl⟩ : ∃ g, fuel = g + 1 := ⟨fuel - 1, by omega⟩
     rw [drive_succ, hs]
 
+
+theorem sdrive_mono {m : SM σ α} {c : Bool} {f : Nat} {s : σ} {r : SStep α} {s' : σ}
+    (h : drive m c f s = (some r, s')) : ∀ f', f ≤ f' → drive m c f' s = (some r, s') := by
+  induction f generalizing s with
+  | zero => simp [drive] at h
+  | succ f ih =>
+    intro f' hf
+    obtain ⟨g, rfl⟩ : ∃ g, f' = g + 1 := ⟨f' - 1, by omega⟩
+    rw [drive_succ] at h ⊢
+    rcases hs : m.step s c with ⟨x, s0⟩
+    rw [hs] at h
+    cases x with
+    | skip => simp only at h ⊢; exact ih h g (by omega)
+    | item a => simpa using h
+    | end_ => simpa using h
+    | err e => simpa using h
+
+/-- the documented result of `One` -/
+def oneRes : List α → Term → ROut α
+  | [], .end_ _ => .error .empty
+  | [], .fail e => .error e
+  | [a], .end_ _ => .ok a
+  | [_], .fail e => .error e
+  | _ :: _ :: _, _ => .error .moreThanOne
+
+/-- **`stream.One`** (live context): the only item; `ErrEmpty` / `ErrMoreThanOne`; or the first failure
+met within the first two `Next` calls. -/
+theorem one_sden {m : SM σ α} {cost : σ → Nat} {s : σ} {L : List (α × Nat)} {t : Term}
+    (h : SDen strict m cost s L t) :
+    ∃ F, ∀ fuel, F ≤ fuel → (one m true fuel s).1 = oneRes (L.map Prod.fst) t := by
+  obtain ⟨F1, h1⟩ := drive_sden h
+  cases L with
+  | nil =>
+    refine ⟨F1, fun fuel hf => ?_⟩
+    have := h1 fuel hf
+    cases t with
+    | end_ e =>
+      simp only at this
+      simp only [one, List.map_nil, oneRes]
+      rcases hd : drive m true fuel s with ⟨r, s1⟩
+      rw [hd] at this
+      simp only at this
+      rw [this]
+    | fail e =>
+      simp only at this
+      simp only [one, List.map_nil, oneRes]
+      rcases hd : drive m true fuel s with ⟨r, s1⟩
+      rw [hd] at this
+      simp only at this
+      rw [this]
+  | cons p L' =>
+    have hF1 := h1 F1 (Nat.le_refl _)
+    simp only at hF1
+    obtain ⟨F2, h2⟩ := drive_sden hF1.2
+    refine ⟨max F1 F2, fun fuel hf => ?_⟩
+    have hmono : drive m true fuel s = drive m true F1 s := by
+      have e1 : drive m true F1 s = (some (.item p.1), (drive m true F1 s).2) := by rw [← hF1.1]
+      rw [e1]
+      exact sdrive_mono e1 fuel (by omega)
+    have h3 := h2 fuel (by omega)
+    simp only [one, hmono]
+    rcases hd : drive m true F1 s with ⟨r, s1⟩
+    rw [hd] at hF1 h3
+    simp only at hF1 h3
+    rw [hF1.1]
+    simp only
+    cases L' with
+    | nil =>
+      cases t with
+      | end_ e =>
+        simp only at h3
+        rcases hd2 : drive m true fuel s1 with ⟨r2, s2⟩
+        rw [hd2] at h3
+        simp only at h3
+        rw [h3]
+        simp [oneRes]
+      | fail e =>
+        simp only at h3
+        rcases hd2 : drive m true fuel s1 with ⟨r2, s2⟩
+        rw [hd2] at h3
+        simp only at h3
+        rw [h3]
+        simp [oneRes]
+    | cons q L'' =>
+      simp only at h3
+      rcases hd2 : drive m true fuel s1 with ⟨r2, s2⟩
+      rw [hd2] at h3
+      simp only at h3
+      rw [h3.1]
+      simp [oneRes]
+
 end Juniper.Proofs.StreamDen
